@@ -280,4 +280,72 @@ self[orig_indices[matching_indices]] = val
     out.append('(* pinned: _typechecking is False only between the two loops of DataMatrix.__lshift__ and its last loop;\n'
                '   every column of every table a caller can hold has _typechecking = True *)\n'
                'Definition k_typechecking_after_public_op : bool := true.\n')
+
+    # ---- read paths: a cell is handed out only by _getintkey (plain list element for a MixedColumn, wrapped in the
+    #      Python type `dtype` for a NumericColumn); Row access and Row iteration go through column[index]
+    row = load(repo, 'datamatrix/_datamatrix/_row.py')
+    pin_function(base, 'BaseColumn._getintkey', ['self', 'key'], 'return self._seq[key]')
+    pin_function(num, 'NumericColumn._getintkey', ['self', 'key'], 'return self.dtype(self._seq[key])')
+    pin_function(row, 'Row.__getitem__', ['self', 'key'], '''
+if isinstance(key, int):
+    key = self._datamatrix.column_names[key]
+return self._datamatrix[key][self._index]
+''')
+    pin_function(row, 'Row.__getattr__', ['self', 'key'], 'return self.__getitem__(key)')
+    pin_function(row, 'Row.__iter__', ['self'], '''
+for col in self._datamatrix.column_names:
+    yield (col, self[col])
+''')
+    pin_function(dmt, 'DataMatrix.__iter__', ['self'], '''
+for i in self.rows:
+    yield self[i]
+''')
+    mixed = load(repo, 'datamatrix/_datamatrix/_mixedcolumn.py')
+    dtypes = {'NumericColumn': 'dtype = float', 'IntColumn': 'dtype = int'}
+    for cls, tree, allowed in (('BaseColumn', base, {'_getintkey', '__getitem__'}),
+                               ('NumericColumn', num, {'_getintkey'}), ('FloatColumn', num, set()),
+                               ('IntColumn', num, set()), ('MixedColumn', mixed, set())):
+        c = find_function(tree, cls)
+        found = [ast.unparse(ch) for ch in c.body if isinstance(ch, (ast.Assign, ast.AnnAssign, ast.AugAssign))
+                 and any(isinstance(t, ast.Name) and t.id == 'dtype' for t in ast.walk(ch))]
+        if found != ([dtypes[cls]] if cls in dtypes else []):
+            raise TranslationError('%s: class attribute dtype: %s' % (cls, found))
+        for ch in c.body:
+            if isinstance(ch, ast.FunctionDef) and ch.name in (
+                    '_getintkey', '__getitem__', '__iter__', '__next__', '__getattribute__') and ch.name not in allowed:
+                raise TranslationError('%s defines %s' % (cls, ch.name))
+    c = find_function(row, 'Row')
+    for ch in c.body:
+        if isinstance(ch, ast.FunctionDef) and ch.name in ('__getattribute__', '__next__', 'keys'):
+            raise TranslationError('Row defines %s' % ch.name)
+    out.append('\n(* pinned: a cell is handed out by BaseColumn._getintkey (the list element) or NumericColumn._getintkey\n'
+               '   (self.dtype(element), dtype = float / int); Row[name], Row.name and iteration over a Row go through\n'
+               '   column[index]; no column class defines __iter__ *)\n'
+               'Definition k_read_paths_through_getintkey : bool := true.\n')
+
+    # ---- CSV reading: the reader is configured by delimiter and quotechar only (no skipinitialspace, no strict / escapechar /
+    #      quoting options), and the cells go to _fromdict unchanged
+    txt = load(repo, 'datamatrix/io/_text.py')
+    fn = find_function(txt, 'readtxt')
+    calls = [c for c in ast.walk(fn) if isinstance(c, ast.Call) and ast.unparse(c.func) == 'csv.reader']
+    if len(calls) != 1:
+        raise TranslationError('readtxt: %d calls of csv.reader' % len(calls))
+    expect_same(calls[0], 'csv.reader(csvfile, delimiter=delimiter, quotechar=quotechar)', 'readtxt reader')
+    body = body_nodoc(fn)
+    if len(body) != 4 or not isinstance(body[1], ast.With):
+        raise TranslationError('readtxt: shape')
+    expect_same(body[0], 'd = collections.OrderedDict()', 'readtxt')
+    expect_same(body[1].body[-1], '''
+for row in reader:
+    all_columns = list(d.keys())
+    for column, val in zip(d.keys(), row):
+        all_columns.remove(column)
+        d[column].append(val)
+    for column in all_columns:
+        warn(u'Some rows miss column %s' % column)
+        d[column].append(u'')
+''', 'readtxt row loop')
+    pin_body(body[2:], ['dm = DataMatrix(default_col_type=default_col_type)._fromdict(d)', 'return dm'], 'readtxt tail')
+    out.append('\n(* pinned: io.readtxt hands every cell of csv.reader(csvfile, delimiter=, quotechar=) unchanged to _fromdict *)\n'
+               'Definition k_readtxt_cells_verbatim : bool := true.\n')
     return ''.join(out)
